@@ -48,6 +48,17 @@ pub struct Ctx {
 }
 
 static CASE_NO: AtomicU64 = AtomicU64::new(0);
+/// set by a property module that has established that the implementation is blocked (e.g. a worker thread never
+/// reaches its next schedule point): the watchdog then records the current case as a hang at once
+pub static FORCE_HANG: std::sync::atomic::AtomicBool = std::sync::atomic::AtomicBool::new(false);
+
+/// the current case is blocked for good: hand over to the watchdog (the process exits with code 3)
+pub fn blocked() -> ! {
+    FORCE_HANG.store(true, Ordering::SeqCst);
+    loop {
+        std::thread::sleep(Duration::from_secs(1));
+    }
+}
 
 impl Ctx {
     pub fn new(dir: &str, seed: u64, thorough: bool, scale: u64, shard: u64, nshards: u64, exec: Exec) -> Self {
@@ -78,7 +89,7 @@ impl Ctx {
             std::thread::sleep(Duration::from_millis(200));
             let cur = current.lock().unwrap().clone();
             if let Some((start, line)) = cur {
-                if start.elapsed() > Duration::from_millis(timeout_ms.load(Ordering::SeqCst)) {
+                if FORCE_HANG.load(Ordering::SeqCst) || start.elapsed() > Duration::from_millis(timeout_ms.load(Ordering::SeqCst)) {
                     let mut f = File::create(format!("{dir}/hang.txt")).unwrap();
                     writeln!(f, "{}", line).ok();
                     writeln!(f, "{}", CASE_NO.load(Ordering::SeqCst)).ok();
@@ -104,6 +115,17 @@ impl Ctx {
     }
 
     /// run one request against the implementation and record it
+    /// generator-side work that drives the real code (schedule exploration): while it runs, `line` is the
+    /// request the watchdog records if the implementation blocks
+    pub fn guard(&self, line: String) {
+        self.timeout_ms.store(self.case_timeout.as_millis() as u64, Ordering::SeqCst);
+        *self.current.lock().unwrap() = Some((Instant::now(), line));
+    }
+
+    pub fn unguard(&self) {
+        *self.current.lock().unwrap() = None;
+    }
+
     pub fn case(&mut self, op: &str, args: &[u64]) {
         let mut line = String::from(op);
         for a in args {
@@ -116,10 +138,12 @@ impl Ctx {
         self.cases.flush().ok();
         self.imp.flush().ok();
         self.oracle.flush().ok();
+        // an enclosing generator guard (schedule exploration) is re-armed after the case
+        let outer = self.current.lock().unwrap().take();
         *self.current.lock().unwrap() = Some((Instant::now(), line.clone()));
         let exec = self.exec;
         let res = catch_unwind(AssertUnwindSafe(|| exec(op, args)));
-        *self.current.lock().unwrap() = None;
+        *self.current.lock().unwrap() = outer.map(|(_, l)| (Instant::now(), l));
         let (out, orc) = match res {
             Ok(Ok(o)) => (o.out, o.oracle),
             Ok(Err(e)) => (format!("bad-request {e}"), None),
